@@ -107,7 +107,7 @@ _REF = None
 def _ref_one(k):
     path = str(env.scratch() / f"c12_ref_{os.getpid()}_{k}.pkl")
     r = subprocess.run([sys.executable, "-c", _REF_SCRIPT, str(env.SRC), str(env.VERIF), path, str(k)], capture_output=True,
-                       text=True, env=dict(os.environ, PYTHONHASHSEED="0"), timeout=900)
+                       text=True, env=dict(os.environ, PYTHONHASHSEED=str(4242 + k)), timeout=900)  # fresh process, other hash salt
     if "ok" not in r.stdout:
         raise RuntimeError(f"reference process for spec {k} failed: " + r.stderr[-800:])
     with open(path, "rb") as f:
